@@ -219,7 +219,9 @@ func lastOpen(path string) (k int, marker byte, ended int) {
 			}
 			ended++
 		case 'H', 'M', 'S':
-			open, marker = n, line[0]
+			// a watchdog marker is final: the process is on its way out (it still writes a goroutine dump, which takes a
+			// while on a loaded machine), and the case may happen to finish - and the next one to begin - in the meantime
+			return n, line[0], ended
 		}
 	}
 	return open, marker, ended
@@ -342,6 +344,12 @@ func (r *runner) runShard(shard, nshards int) *workerResult {
 		res.evals += ended
 		if killed {
 			res.incon = append(res.incon, fmt.Sprintf("shard %d: overall watchdog (%s) fired at case %d; stderr tail: %s", shard, overall, k, tail(filepath.Join(r.dir, tag+".stderr"), 400)))
+			return res
+		}
+		if k < 0 && (exit == 3 || exit == 4 || exit == 5) {
+			// our own watchdogs' exit codes without an open case: Setup / Finish of the harness was slow (or ran out of memory) on a
+			// loaded machine; nothing the library did is being judged here
+			res.incon = append(res.incon, fmt.Sprintf("shard %d: a harness watchdog (exit %d) fired outside any case; the rest of the shard was not executed", shard, exit))
 			return res
 		}
 		if k < 0 {
